@@ -1631,7 +1631,7 @@ def main(tier, replay=None):
         "rule": "case = (attributes with type/declaration form, decorator arguments, names occupied in the body, instantiated?); "
                 "fixed classes and random classes x every generated name occupied as function/staticmethod/property/truthy value "
                 "and as a falsy plain value None/0/False/''/() (quick: all five for the first fixed class, one otherwise; one kind per name for random classes), occupied pairs, and colliding word pairs found with the real "
-                "inflect; distinct = distinct descriptions; nontrivial = at least one generated entry compared or decoration raised",
+                "inflect; chains of 2-3 independently decorated classes sharing collection attribute names (names without singular form included), each class judged alone with the others listed as earlier/later classes of the case; distinct = distinct descriptions; nontrivial = at least one generated entry compared or decoration raised",
         "samples": [descs[0], descs[len(descs) // 2], descs[-1]],
         "exhaustive": False,
     }
